@@ -263,6 +263,24 @@ class SimPool:
     def join(self):
         pass
 
+    # multiprocessing-style extras.  imap_unordered yields results in COMPLETION order -- which is the scheduler's
+    # decision here, so code that assumes task order while using it is exposed deterministically.
+    def imap(self, func, iterable, chunksize=1):
+        return iter(self.map(func, iterable))
+
+    def imap_unordered(self, func, iterable, chunksize=1):
+        tasks = list(iterable)
+        res = self.map(func, tasks)
+        res = list(res)
+        call = self.map_calls[-1] if self.map_calls else None
+        order = []
+        if call is not None and len(call.get("executed", [])) == len(tasks):
+            order = list(call["executed"])
+        else:
+            order = list(range(len(tasks)))
+        self.stats["imap_unordered"] = self.stats.get("imap_unordered", 0) + 1
+        return iter([res[i] for i in order])
+
     def _fault_for(self, kind, **match):
         for f in self.faults:
             if f.get("kind") != kind or f.get("done"):
